@@ -86,7 +86,7 @@ def makePathLoop (bs : Builders) : List String → Ty → Path → Outcome Path
 
 def makePath (bs : Builders) (b : Builder) (s : String) : Outcome Path :=
   if s == "" then .err "can not make path from empty input"
-  else makePathLoop bs (s.splitOn ".") b.for_.ty []
+  else makePathLoop bs (splitDot s) b.for_.ty []
 
 /-! ### internal/veneers/types.go : YAML-declared options and assignments → IR -/
 
